@@ -4,6 +4,7 @@ import props_resource
 import props_subject
 import props_observable
 import props_router
+import props_locale
 SPECS = {
     "C01": props_resource.C01,
     "C02": props_resource.C02,
@@ -17,7 +18,8 @@ SPECS = {
     "C16": props_observable.C16,
     "C06": props_router.C06,
     "C13": props_router.C13,
+    "C19": props_locale.C19,
 }
 # specs that can be run (./check) but are not claimed in MANIFEST.json yet
-IN_PROGRESS = {"C06", "C13"}
+IN_PROGRESS = {"C19"}
 NOT_CLAIMED = {}
